@@ -9,7 +9,11 @@ import (
 
 func init() { propChecks["C17"] = checkC17 }
 
-var c17Cmds = append(shapeArgs(func(s cmdShape) bool { return true }), []string{"lint", "bad.yaml"}, []string{"bal", "-s", "cal", "--collapse-last"})
+var c17Cmds = append(shapeArgs(func(s cmdShape) bool { return true }), []string{"lint", "bad.yaml"}, []string{"bal", "-s", "cal", "--collapse-last"},
+	// commands whose result is empty: whatever they print instead (nothing on this tree) is a report like any other
+	[]string{"report", "element-total", "no-such-element"}, []string{"reg", "-s", "no-such-element"}, []string{"reg", "-f", "no-such-food"}, []string{"bal", "-s", "no-such-element"},
+	[]string{"summary", "1999/01/01"}, []string{"-b", "2999/01/01", "reg"}, []string{"-b", "2999/01/01", "bal"}, []string{"-e", "1999/01/01", "csv", "log"}, []string{"-e", "1999/01/01", "report", "quantity"},
+	[]string{"-e", "1999/01/01", "report", "totals"}, []string{"-e", "1999/01/01", "print"}, []string{"--no-database", "report", "unresolved"}, []string{"-e", "1999/01/01", "report", "unresolved"})
 
 func c17Inputs() []map[string]string {
 	small := map[string]string{"food.yaml": "r1:\n  cal: 2\n", "log.yaml": "2021/01/24:\n  r1: 1\n  u: 2\n", "bad.yaml": "x:\n  y:1\n"}
